@@ -29,6 +29,8 @@ func c06RunCase(w *emit.Writer, in c06In, origin string) {
 	class := "history"
 	issuances := 0
 	opsSeen := map[string]bool{}
+	fwd, fwdSteps := true, 0
+	var prevSt []c06Entry
 	for si := range in.Steps {
 		h := &in.Steps[si]
 		// class of the known finding: manage is about to load a certificate revoked for key compromise
@@ -36,7 +38,21 @@ func c06RunCase(w *emit.Writer, in c06In, origin string) {
 		if h.Op == "manage" && in.Cfg.Reuse && in.Cfg.N >= 2 && bw.kcRevokedWithOtherBundle() {
 			class = "keycompromise-other-issuer-holds-bundle"
 		}
+		// forward step (Recency.v): every issuer answer is dated after all stored certificates
+		if fwd && (h.Op == "manage" || h.Op == "obtain" || h.Op == "renew") {
+			for _, out := range h.Orc.Out {
+				for _, e := range prevSt {
+					if out.Up && e.K == 1 && len(e.Val) >= 4 && e.Val[3] >= out.NB {
+						fwd = false
+					}
+				}
+			}
+			if fwd {
+				fwdSteps++
+			}
+		}
 		o := bw.runHop(*h, nil, true)
+		prevSt = o.stEnc
 		if in.Cfg.Rnd {
 			h.Orc.Perm = c06CompletePerm(in.Cfg.N, o)
 		}
@@ -60,6 +76,8 @@ func c06RunCase(w *emit.Writer, in c06In, origin string) {
 	w.Hist("keytype=" + in.Cfg.KeyType)
 	w.Hist(fmt.Sprintf("issuances=%d", min(issuances, 6)))
 	w.Hist("class=" + class)
+	w.Hist(fmt.Sprintf("forward_history=%v", fwd))
+	w.Hist(fmt.Sprintf("forward_prefix_ops=%d", min(fwdSteps, 6)))
 	for _, n := range bw.oracleNotes {
 		w.Meta.Notes = append(w.Meta.Notes, n)
 	}
